@@ -34,7 +34,7 @@ class CheckC16(core.Check):
         "case = two identical scripted sessions: pair 1 converted to stateless mode (driven sequentially in ascending / descending / random / "
         "repeated nonce order, then from 2-16 threads on the shared object with yields and spins between calls), pair 2 a recorded stateful twin "
         "that supplies the transport keys and the n-th messages; oracle per op: st_write(n, p) == model AEAD(k_dir, n, p) == twin's n-th message, "
-        "st_read(n, that message) == p, whatever the order, repetition or thread; distinct key = (cipher, backend, pattern class, op list digest); "
+        "st_read(n, that message) == p, whatever the order, repetition or thread - also after the same rekey operations (spec REKEY, the back end's own REKEY, manual keys singly or both in one call) on both pairs; distinct key = (cipher, backend, pattern class, op list digest); "
         "interleaving signatures (global completion order of the threads) are counted; non-trivial = >= 1 concurrent block or >= 1 out-of-order/repeated op judged"
     )
     assumptions = [
@@ -48,7 +48,7 @@ class CheckC16(core.Check):
     def plan(self):
         rnd = random.Random(self.seed * 236887691 + 16)
         n = 480 if self.tier == "quick" else 8000
-        return [(rnd.choice(CIPHERS), rnd.choice(["D", "R", "DR"]), rnd.choice(["NN", "XX", "N", "IKpsk2"]), rnd.getrandbits(32)) for _ in range(n)]
+        return [(rnd.choice(CIPHERS), rnd.choice(["D", "R", "DR", "D+rk"]), rnd.choice(["NN", "XX", "N", "IKpsk2"]), rnd.getrandbits(32)) for _ in range(n)]
 
     def build(self, desc, small=False, threads=None, rec_twin="c"):
         ci, be, pat, seed = desc
@@ -159,7 +159,34 @@ class CheckC16(core.Check):
                         ops.append("r,%s,%d,tw%d_%d,%d" % (G if d2 == 0 else F, n2, d2, n2, 7 + n2))
                 thr2.append(ops)
             lc2.append(c.conc(thr2, ticks=True))
-        c.meta.update({"twin": twin, "seq": seq, "conc": lc, "conc2": lc2, "T": T})
+        # (5) "byte-identical to the n-th message of a stateful sender of the same session" also after rekeys: the same
+        # rekey operations on the stateless pair and on the stateful twin (spec REKEY through rekey_outgoing/incoming - which
+        # is the cipher's own rekey() for back end `+rk` -, manual keys singly and both in one call), then message T
+        rk = []
+        if not small:
+            nn = T
+            for step in range(3):
+                how = rnd.choice(["auto", "manual-both", "manual-i", "manual-r", "auto"])
+                k1, k2 = gen_bytes("rk1.%d.%d" % (seed, step), 32).hex(), gen_bytes("rk2.%d.%d" % (seed, step), 32).hex()
+                for (a, b) in (("A", "B"), ("A2", "B2")):
+                    if how == "auto":
+                        for d in dirs:
+                            w, r = (a, b) if d == 0 else (b, a)
+                            c.op("rekey_out", w)
+                            c.op("rekey_in", r)
+                    else:
+                        for pid in (a, b):
+                            c.op("rekey_manual", pid, i=k1 if how != "manual-r" else "-", r=k2 if how != "manual-i" else "-")
+                for d in dirs:
+                    w, r = ("A", "B") if d == 0 else ("B", "A")
+                    pay = "gen:%d:rk%d.%d" % (9 + step, d, step)
+                    lt = c.op("t_write", w + "2", pay=pay, buf=BIG, out="rkt%d_%d" % (d, step))
+                    c.op("t_read", r + "2", msg="$rkt%d_%d" % (d, step), buf=BIG, flags=("q",))
+                    lw = c.op("st_write", w, n=nn, pay=pay, buf=BIG, out="rks%d_%d" % (d, step))
+                    lr = c.op("st_read", r, n=nn, msg="$rkt%d_%d" % (d, step), buf=BIG)
+                    rk.append((lt, lw, lr, how, "rk%d.%d" % (d, step), 9 + step, nn))
+                nn += 1
+        c.meta.update({"twin": twin, "seq": seq, "conc": lc, "conc2": lc2, "T": T, "rk": rk})
         c.info = {"key": (ci, be, pat), "cipher": ci, "oneway": parsed.oneway, "nthr": nthr}
         return c
 
@@ -235,6 +262,22 @@ class CheckC16(core.Check):
                     return r
             r.stats["stateless_ops_judged"] += 1
             ooo += 1
+        for lt, lw, lr, how, sd, ln, nn in case.meta.get("rk", []):
+            et, ew, er = by.get(str(lt)), by.get(str(lw)), by.get(str(lr))
+            if et is None or not et.ok or ew is None or er is None or ew.panic or er.panic:
+                r.foreign_dev("C15/C10", "twin write after rekey failed or a call panicked")
+                break
+            if not ew.ok or ew.kv.get("out") != et.kv.get("out"):
+                r.viol("C16|twin-after-rekey|%s" % how, "%s: after the same rekey operations (%s) the stateless message under nonce %d differs from the stateful twin's message %d (%s)" % (tag, how, nn, nn, ew.res[:40]))
+                return r
+            ok = er.ok
+            if ok:
+                b, l2, sh = decode_out(er.kv.get("out"))
+                ok = b == gen_bytes(sd, ln)
+            if not ok:
+                r.viol("C16|read-after-rekey|%s" % how, "%s: after the same rekey operations (%s) the stateless reader does not return the payload of the stateful twin's message %d (%s)" % (tag, how, nn, er.res[:40]))
+                return r
+            r.stats["twin_messages_compared_after_rekey"] += 1
         # concurrent blocks
         ce = by.get(str(case.meta["conc"]))
         ce2s = [by.get(str(l)) for l in case.meta.get("conc2", [])]
